@@ -99,8 +99,28 @@ type drv struct {
 	t *tr.Trace
 }
 
+// guarded runs one call into the header parser under recover(): the header
+// value is chosen by the client (C12: a panic here is a request without a
+// response; net/http recovers it and closes the connection).
+func (d *drv) guarded(what string, f func()) (panicked bool) {
+	d.t.Checked("C12.etag_no_panic")
+	defer func() {
+		if r := recover(); r != nil {
+			panicked = true
+			d.t.Fail("C12", "etag_no_panic", fmt.Sprintf("%s panicked: %v", what, r))
+			d.t.Fail("C18", "header_semantics", fmt.Sprintf("%s panicked: %v", what, r))
+		}
+	}()
+	f()
+	return false
+}
+
 func (d *drv) scan(s string) {
-	e, r := webserver.VerifEtagScan(s)
+	var e, r string
+	if d.guarded(fmt.Sprintf("scanETag(%q)", s), func() { e, r = webserver.VerifEtagScan(s) }) {
+		d.t.Op("PANIC", "scan", []byte(s))
+		return
+	}
 	d.t.Op(tr.Hex([]byte(e))+" "+tr.Hex([]byte(r)), "scan", []byte(s))
 	d.t.Checked("C18.scan_wellformed")
 	if e != "" {
@@ -119,7 +139,11 @@ func (d *drv) scan(s string) {
 }
 
 func (d *drv) match(etag, header string) bool {
-	m := webserver.VerifEtagMatch(etag, header)
+	var m bool
+	if d.guarded(fmt.Sprintf("etagMatch(%q, %q)", etag, header), func() { m = webserver.VerifEtagMatch(etag, header) }) {
+		d.t.Op("PANIC", "match", []byte(etag), []byte(header))
+		return false
+	}
 	d.t.Op(tr.B(m), "match", []byte(etag), []byte(header))
 	d.t.Checked("C18.header_semantics")
 	if want := specMatch(etag, header); m != want {
@@ -139,7 +163,11 @@ func (d *drv) cp(method, etag, im, inm string) {
 		h["If-None-Match"] = []string{inm}
 	}
 	r := http.Request{Method: method, Header: h}
-	done := webserver.VerifEtagCheckPreconditions(w, &r, etag)
+	var done bool
+	if d.guarded(fmt.Sprintf("checkPreconditions(%s, %q, If-Match %q, If-None-Match %q)", method, etag, im, inm), func() { done = webserver.VerifEtagCheckPreconditions(w, &r, etag) }) {
+		d.t.Op("PANIC", "cp", method, []byte(etag), []byte(im), []byte(inm))
+		return
+	}
 	d.t.Op(fmt.Sprintf("%s %d", tr.B(done), w.status), "cp", method, []byte(etag), []byte(im), []byte(inm))
 	if w.calls > 1 || (done != (w.calls == 1)) {
 		d.t.Fail("C18", "if_match", fmt.Sprintf("checkPreconditions(%s,%q,%q,%q): done=%v but WriteHeader called %d times", method, etag, im, inm, done, w.calls))
